@@ -311,6 +311,29 @@ def rule_r5(ctx) -> List[R.Inst]:
                     and unparse(b[0].args[0]) == unparse(lp.target) and not any(
                     isinstance(x, (ast.Continue, ast.Break)) for x in ast.walk(lp)):
                 good = True
+                # the chart-token predicate: "the token contains the tag" (tokens may be led by comments and chart
+                # header fields are free text, so prefix / last-'#' tests are different predicates)
+                t = i.test
+                tok = unparse(lp.target)
+                contains = (isinstance(t, ast.Compare) and isinstance(t.ops[0], ast.In) and C.const_str(t.left) == "#NOTES:" and
+                            unparse(t.comparators[0]) == tok) or \
+                           (isinstance(t, ast.Compare) and isinstance(t.left, ast.Call) and call_name_(t.left) == "find" and
+                            unparse(t.left.func.value) == tok and t.left.args and C.const_str(t.left.args[0]) == "#NOTES:") or \
+                           (isinstance(t, ast.Call) and call_name_(t) == "count" and unparse(t.func.value) == tok)
+                prefix = any(isinstance(x, ast.Call) and call_name_(x) in ("startswith", "endswith", "match", "fullmatch")
+                             for x in ast.walk(t))
+                if not contains and prefix:
+                    insts.append(R.viol("C02.R5", "chart-token-predicate", file, t.lineno,
+                                        f"chart tokens are selected by a positional test ('{unparse(t)}'): a chart token whose tag is "
+                                        f"not at the tested position (leading '//' comment lines, or a '#' inside a free-text header "
+                                        f"field such as the description) is treated as metadata and the chart is silently dropped",
+                                        construct=unparse(t)))
+                elif not contains:
+                    insts.append(R.undec("C02.R5", "chart-token-predicate", file, t.lineno,
+                                         f"chart tokens are selected by '{unparse(t)}'; only the containment test "
+                                         f"'\"#NOTES:\" in token' (or find/count) is known to select every chart token"))
+                else:
+                    insts.append(R.ok("C02.R5", "chart-token-predicate", file, t.lineno, idiom="'#NOTES:' in token"))
     insts.append(R.ok("C02.R5", "token-partition", file, fn.node.lineno, idiom="every token goes to charts or to metadata") if good else
                  R.viol("C02.R5", "token-partition", file, fn.node.lineno,
                         "tokens of the file are not partitioned exhaustively into charts and metadata",
@@ -327,6 +350,64 @@ def rule_r5(ctx) -> List[R.Inst]:
                  R.viol("C02.R5", "every-chart", file, rm.node.lineno,
                         "not every chart token of the file becomes a chart of the mapset", construct="SMMapSet._read_maps"))
     return insts
+
+
+def call_name_(n):
+    if isinstance(n, ast.Call) and isinstance(n.func, ast.Attribute):
+        return n.func.attr
+    if isinstance(n, ast.Call) and isinstance(n.func, ast.Name):
+        return n.func.id
+    return None
+
+
+def rule_r7(ctx) -> List[R.Inst]:
+    """expanders: the column of every object is the index of its per-column buffer; times come from the snap table"""
+    from ..flow import Flow, SeqV, ExprV, show, ctor_kwargs
+    M = ctx.M
+    rid = "C02.R7"
+    fn = M.fn(READ_NOTES)
+    file = M.mods[fn.mod].rel
+    insts = []
+    nested = [n for n in fn.node.body if isinstance(n, ast.FunctionDef)]
+    for nf in nested:
+        if not nf.args.args:
+            continue
+        param = nf.args.args[0].arg
+        loops = [n for n in nf.body if isinstance(n, ast.For)]
+        key = f"{nf.name}:column"
+        if len(loops) != 1:
+            insts.append(R.undec(rid, key, file, nf.lineno, "single per-column loop expected"))
+            continue
+        lp = loops[0]
+        F = Flow()
+        it = F.eval(lp.iter)
+        F.bind(lp.target, ExprV(it.elem) if isinstance(it, SeqV) else it)
+        dicts = [n for n in ast.walk(lp) if isinstance(n, ast.Call) and call_name_(n) == "dict" and
+                 any(k.arg == "column" for k in n.keywords)]
+        if len(dicts) != 1:
+            insts.append(R.undec(rid, key, file, lp.lineno, "object dict(...) not found"))
+            continue
+        col = next(k.value for k in dicts[0].keywords if k.arg == "column")
+        got = show(F._subst_all(col)).replace(" ", "")
+        want = f"@index({param})"
+        if got == want:
+            insts.append(R.ok(rid, key, file, lp.lineno, idiom=f"column = enumerate index over the per-column buffers '{param}'"))
+        elif got.startswith("@index("):
+            insts.append(R.viol(rid, key, file, lp.lineno,
+                                f"the column is the running index over '{got[7:-1]}', not over the per-column buffers themselves: "
+                                f"filtering or re-ordering the buffers renumbers the columns", construct=f"{nf.name}: column <- {got}"))
+        else:
+            insts.append(R.undec(rid, key, file, lp.lineno, f"provenance of the column not resolved: {got}"))
+        # skipping empty buffers must not renumber: a `continue` is fine, slicing the iterable is not (covered above)
+    # every expander result feeds the list of its own slot: checked by C02.R1
+    if not insts:
+        insts.append(R.undec(rid, "expanders", file, fn.node.lineno, "expander functions not found"))
+    return insts
+
+
+def rule_r8(ctx) -> List[R.Inst]:
+    from .common import fresh_default_insts
+    return fresh_default_insts(ctx, "C02.R8")
 
 
 REQUIRED_BY_DOMAIN = {"bcs_s": "#BPMS is required by the property's domain (a .sm file without tempo is not in it)"}
@@ -371,8 +452,10 @@ SPECS = [
     RuleSpec("C02.R2", rule_r2, 5, "A1", "per-chart header positions"),
     RuleSpec("C02.R3", rule_r3, 22, "A1", "header tag table"),
     RuleSpec("C02.R4", rule_r4, 3, "A8", "un-reseated map times the notes; reseated map (same inputs) feeds the tempo list; #OFFSET field"),
-    RuleSpec("C02.R5", rule_r5, 2, "A8", "every chart of the file is returned"),
+    RuleSpec("C02.R5", rule_r5, 3, "A8", "every chart of the file is returned"),
     RuleSpec("C02.R6", rule_r6, 2, "A8", "no None placeholder reaches a dereference"),
+    RuleSpec("C02.R7", rule_r7, 2, "A5", "expanders number columns by the per-column buffer index"),
+    RuleSpec("C02.R8", rule_r8, 6, "A3", "every chart gets its own list objects (fresh defaults per instance)"),
 ]
 
 META = dict(
